@@ -282,6 +282,12 @@ func zzxAcceptStep(t *zzT) {
 			t.Assert(n.drained(n.chFinal) == 0, "no finalization event without a raise")
 		}
 		t.Assert(n.drained(n.chNew) == 1, "new-block event emitted once")
+		// C05/C13: every block above the finalized height stays removable — its revert diff is kept
+		// (only diffs below the new finalized height may be pruned with this step)
+		for hh := finAfter + 1; hh <= tip.Height+1; hh++ {
+			_, ok := n.database.Get(bytes.Join(blockchain.DBPrefixToBytes(blockchain.DBPrefixStateDiff), bytes.FromUint32(hh)))
+			t.Assert(ok, "the revert diff of every block above the finalized height is kept")
+		}
 		zzxRestartCheck(t, n)
 		t.Reach("accepted")
 		return
@@ -483,3 +489,14 @@ func zzH_C04_finalized_height_step(t *zzT) { zzxAcceptStep(t) }
 //zz:quick extra=4 onlydev=9 finAhead=0 budget=300s
 //zz:thorough extra=5 onlydev=9 finAhead=0 budget=30m
 func zzH_C03_contradiction_in_window(t *zzT) { zzxAcceptStep(t) }
+
+// C05.a premise on a longer chain: after a step that raises finality (and prunes revert diffs), every
+// block above the finalized height can still be removed — the diff of each of them is still stored
+// (assertion "the revert diff of every block above the finalized height is kept" of zzxAcceptStep;
+// only the valid successor is explored here).
+//
+//zz:opt loop=80 lockdiscipline=off require=accepted,finality-raised
+//zz:stub time.Now zzxStubNow
+//zz:quick extra=3 onlydev=0 budget=300s
+//zz:thorough extra=5 onlydev=0 budget=30m
+func zzH_C05_diffs_kept_above_finalized(t *zzT) { zzxAcceptStep(t) }
